@@ -9,9 +9,15 @@
    for the algorithm, by the transcription theorem C02_reference_allocator_refines_spec.
    Controller half (further down): the re-sync discipline, and the statement itself
    over whole histories (C07_quiescent_no_starvation).  "In the same settling
-   period" is covered as "whenever the reconciler has settled": that quiescence is
-   reached is NOT proved (no progress theorem for the retry loop of a full pass);
-   C01_oracle_exists_for_wellformed_pools shows every enabled step can be taken. *)
+   period" is covered as "whenever the reconciler has settled".  That it does settle
+   is the last section: for Services without explicitly requested addresses, once
+   outside events stop and status writes succeed every run of reconciler steps is
+   bounded (C07_resync_loop_terminates - the ReprocessAll loop cannot livelock), a
+   world with no enabled step has no pending work (C07_no_enabled_step_means_no_work),
+   and a quiescent world is reached within the bound (C07_quiescence_is_reached).
+   Not covered: explicitly requested addresses (F19 / F22 leave results the next
+   run rejects), and fairness of the work queue / retry timers, which is the
+   runtime's. *)
 From Coq Require Import List NArith.
 From Verif Require Import Model.Alloc Proofs.AllocP Proofs.AllocPolicyP Proofs.AllocCompleteP.
 
@@ -163,3 +169,72 @@ Proof.
   split; [reflexivity|]. split; [repeat split|]. split; [reflexivity|]. split; [repeat split|]. split; [reflexivity|].
   unfold no_offer. cbn [o_want o_want_pool xobj]. vm_compute. discriminate.
 Qed.
+
+
+(* ---------- progress: the controller settles ---------- *)
+From Verif Require Import Proofs.CtrlTotalP Proofs.CtrlProgressP.
+
+(* Setting: a configuration with distinct pool names and disjoint pools has been
+   delivered, no Service requests explicit addresses ([settled_inputs]); the only
+   events are single reconciles and full re-syncs whose status writes succeed
+   ([rev_ev]) - no user, configuration or restart event.  Then every such run is at
+   most [budget w] = |queue| + 2 * |queue and API Services| + 1 events long, whatever
+   the allocator chooses and in whatever order the reconciler works. *)
+Theorem C07_resync_loop_terminates : forall rank w evs w',
+  settled_inputs w -> Forall rev_ev evs -> wrun rank evs w = Some w' -> (length evs <= budget w)%nat.
+Proof. exact reconcile_terminates. Qed.
+
+(* each reconciler step uses up work: the queue shrinks, or the pending re-sync is done,
+   or - when a step asks for another re-sync - a Service moved to a better class
+   (anything -> holds nothing / holds admissible addresses); a Service holding admissible
+   addresses never asks for a re-sync and keeps them *)
+Theorem C07_step_uses_work : forall rank U, NoDup U -> forall w e w' n,
+  PInv U w -> potential rank U w n -> rev_ev e -> wstep rank w e = Some w' ->
+  exists n', PInv U w' /\ potential rank U w' n' /\ (work w' n' < work w n)%nat /\
+             (w_reload w = true \/ w_gate w = true -> w_reload w' = true \/ w_gate w' = true).
+Proof. exact step_uses_work. Qed.
+
+Theorem C07_settled_service_keeps_quiet : forall rank w s k w1 r o,
+  apply_handler rank w s k = Some (w1, r) -> aget (w_api w) s = Some o ->
+  c_have_pools (w_ctl w) = true -> mem_inv (w_ctl w) -> pools_wf (w_ctl w) ->
+  o_want o = WNone -> k_write k = true ->
+  exists o1, aget (w_api w1) s = Some o1 /\ o_want o1 = WNone /\ r <> Error /\
+    (pempty w1 s o1 \/ pgood rank w1 s o1) /\
+    (pgood rank w s o -> pgood rank w1 s o1 /\ r <> ReprocessAll) /\
+    (pempty w s o -> pempty w1 s o1 -> r <> ReprocessAll).
+Proof. exact handler_settles. Qed.
+
+(* as long as there is pending work some reconciler step with a successful write is enabled *)
+Theorem C07_pending_work_is_enabled : forall rank w, pools_wf (w_ctl w) ->
+  (w_queue w <> [] \/ w_reload w = true) -> exists e w', rev_ev e /\ wstep rank w e = Some w'.
+Proof. exact reconcile_enabled. Qed.
+
+Theorem C07_no_enabled_step_means_no_work : forall rank w, pools_wf (w_ctl w) ->
+  (forall e w', rev_ev e -> wstep rank w e <> Some w') -> w_queue w = [] /\ w_reload w = false.
+Proof. exact stuck_means_done. Qed.
+
+(* so a quiescent world - the one C07_quiescent_no_starvation, C01, C02, C06 speak about -
+   is reached within the bound (a re-sync must be pending or the first pass done: after a
+   restart the pool reconciler's first delivery requests one) *)
+Theorem C07_quiescence_is_reached : forall rank w,
+  settled_inputs w -> (w_reload w = true \/ w_gate w = true) ->
+  exists evs w', Forall rev_ev evs /\ wrun rank evs w = Some w' /\ quiescent w' /\ (length evs <= budget w)%nat.
+Proof. exact reconcile_reaches_quiescence. Qed.
+
+(* the premises are met by a reachable world with work pending *)
+Example C07_progress_nonvacuous :
+  exists w, wrun xrank [EPools xpools; UPut 1 (xobj 80); UPut 2 (xobj 80)] world0 = Some w /\
+            settled_inputs w /\ w_reload w = true /\ w_queue w <> [] /\ budget w = 7%nat.
+Proof.
+  destruct (wrun xrank [EPools xpools; UPut 1 (xobj 80); UPut 2 (xobj 80)] world0) as [w|] eqn:E; [|vm_compute in E; discriminate].
+  exists w. vm_compute in E. injection E as <-.
+  split; [reflexivity|]. split; [|split; [reflexivity|split; [discriminate|vm_compute; reflexivity]]].
+  split; [|split; [reflexivity|split]].
+  - split; [split; [constructor|intros e1 e2 x []]|intros e []].
+  - split; [repeat constructor; intros []|].
+    intros p q x [<-|[]] [<-|[]] _ _. reflexivity.
+  - intros s o. unfold aget. cbn [w_api find fst snd option_map].
+    destruct (2 =? s); [intros [= <-]; reflexivity|]. destruct (1 =? s); [intros [= <-]; reflexivity|discriminate].
+Qed.
+Print Assumptions C07_resync_loop_terminates.
+Print Assumptions C07_quiescence_is_reached.
